@@ -103,6 +103,7 @@ func Prop() *core.Prop {
 			"eof_after_close", "data_packets_on_wire", "concurrent_stream_cases",
 			"inject_unknown_sid", "inject_closed_sid", "inject_bad_seq", "inject_bad_base64", "inject_oversize",
 			"refused_opens", "raw_receiver_transfers", "raw_wrap_runs",
+			"set_read_buffer_unlimited", "set_read_buffer_below_block", "passive_side_holds_base64_remainder_at_close", "passive_side_unflushed_at_close", "serve_loops_alive_after_transfer",
 			"forced_I1_reached", "forced_I2_reached", "forced_I3_reached",
 		},
 	}
